@@ -111,7 +111,7 @@ def run(ctx):
         return
 
     # ---------------- R1 clear -----------------------------------------------------------------
-    ctx.rule("R1-CLEAR", "clear(): Ok paths pass fill(marks, Damaged) and fill(back, Cell::default()); front is not written", floor=3)
+    ctx.rule("R1-CLEAR", "clear(): Ok paths pass fill(marks, Damaged) and fill(back, Cell::default()); front is not written; image placements erased are those of back, before it is reset", floor=4)
     cfg = clear.cfg()
     oks = ok_return_blocks(clear)
     fl = fills(clear, None)
@@ -124,6 +124,22 @@ def run(ctx):
             ctx.violation("R1-CLEAR", clear.path, nm,
                           "TerminalRenderer::clear has an Ok path that does not %s: the next frame would not repaint every cell" % ("mark all cells Damaged" if nm == "marks-damaged" else "reset the back buffer to default cells"),
                           sites=[clear.loc])
+    # images on screen are the ones recorded in `back`: every ImageErase of clear() takes image and position from an iteration over back,
+    # and the loop runs before back is reset
+    erases = [(bb, s_) for bb, si, s_ in clear.assigns() if s_["rv"]["k"] == "agg" and s_["rv"].get("variant") == "ImageErase"]
+    for bb, s_ in erases:
+        e = expr(clear, {"k": "copy", "place": s_["place"]})
+        parts = e.split(", Option::Some(")
+        from_back = len(parts) == 2 and all("Surface::iter(arg1.back)" in x and "arg1.front" not in x for x in parts)
+        before_reset = bool(b_d) and not any(bb in cfg.reachable_from(r) for r in b_d)
+        ctx.instance("R1-CLEAR", {"what": "erase-source", "image_erase": e[:200], "from_back": from_back, "before_back_reset": before_reset})
+        if not from_back:
+            ctx.violation("R1-CLEAR", clear.path, "erase-source", "clear() erases image placements taken from something other than the back buffer (%s): "
+                          "placements that are on screen but not in that buffer survive the clear" % e[:160], sites=["%s:%d" % (clear.file, s_["line"])])
+        if not before_reset:
+            ctx.violation("R1-CLEAR", clear.path, "erase-after-reset", "clear() resets the back buffer before erasing the image placements recorded in it", sites=["%s:%d" % (clear.file, s_["line"])])
+    if not erases:
+        ctx.violation("R1-CLEAR", clear.path, "no-erase", "clear() does not erase the image placements recorded in the back buffer: kitty placements survive the text clear", sites=[clear.loc])
     fw = [f for f in fl if (f["recv"] or "").startswith("(*_1).front")]
     ctx.instance("R1-CLEAR", {"what": "front-untouched", "front_writes": len(fw)})
     for f in fw:
@@ -340,6 +356,16 @@ def run(ctx):
         ctx.instance("R4-IMAGES", {"erase_line": et["line"], "damage_fill_lines": [f["t"]["line"] for f in dmg_fill], "follows": ok})
         if not ok:
             ctx.violation("R4-IMAGES", frame.path, "erase-without-damage", "ImageErase is not followed by marking the image area Damaged (path %s)" % wit, sites=["%s:%d" % (frame.file, et["line"])])
+        # the erased placement is the one on screen: image cloned from the back-buffer side of the iteration, never from front
+        era = [s_ for bb_, si_, s_ in frame.assigns() if s_["rv"]["k"] == "agg" and s_["rv"].get("variant") == "ImageErase"]
+        for s_ in era:
+            img_e = expr(frame, s_["rv"]["fields"][0])
+            side = _iter_side(img_e)
+            okb = side is not None and "arg1.back" in side and "arg1.front" not in side
+            ctx.instance("R4-IMAGES", {"erased_image_from": (side or img_e)[:120], "is_back_buffer": okb})
+            if not okb:
+                ctx.violation("R4-IMAGES", frame.path, "erase-source", "frame() erases an image placement that is not taken from the back buffer (what the terminal shows): %s" % (side or img_e)[:160],
+                              sites=["%s:%d" % (frame.file, s_["line"])])
         # the erase is decided by the kind of the OLD cell: the discriminant switch guarding it must test the same place the image is cloned from,
         # and must be evaluated on every changed-cell path (it post-dominates the changed continuation of the first-pass eq test)
         first_eq = [x for x in eqs if not x[2] and _inner_loop(loops, x[0]) == inner]
@@ -613,3 +639,37 @@ def _guarding_kind_switch(body, cfg, bb):
                     if best is None or cfg.dominates(best, j):
                         best = j
     return best
+
+
+def _top_args(s_):
+    args, depth, cur = [], 0, ""
+    for ch in s_:
+        if ch in "([{":
+            depth += 1
+        elif ch in ")]}":
+            depth -= 1
+        if ch == "," and depth == 0:
+            args.append(cur.strip())
+            cur = ""
+        else:
+            cur += ch
+    args.append(cur.strip())
+    return args
+
+
+def _iter_side(e):
+    """for a value projected out of `next(into_iter(zip(A, B)))@Some.0.<i>...` the zip operand it comes from (A or B, recursively);
+    for a plain iteration the iterated expression; None when the shape is not recognised"""
+    m = re.search(r"Iterator::next\((.*)\)@Some\.0((?:\.\d+)*)", e)
+    if not m:
+        return None
+    it, proj = m.group(1), [int(x) for x in m.group(2).split(".") if x]
+    while True:
+        it = re.sub(r"^IntoIterator::into_iter\((.*)\)$", r"\1", it)
+        z = re.match(r"^Iterator::zip\((.*)\)$", it)
+        if not z or not proj:
+            return it
+        args = _top_args(z.group(1))
+        if len(args) != 2 or proj[0] > 1:
+            return None
+        it, proj = args[proj[0]], proj[1:]
